@@ -101,6 +101,28 @@ def tight_rechunk_scenario(rng):
     return prog, events, labels
 
 
+def tight_qr_scenario(rng):
+    """Tall-and-skinny QR whose first-stage R factor sits just below / just above the size at which tsqr recurses, under Specs
+    with the same USABLE memory (allowed - reserved) and different reserved_mem: the decision to recurse, and with it
+    acceptance, may depend on usable memory only."""
+    import cubed
+    c = rng.choice([2, 4])
+    k = rng.choice([8, 16])
+    rc = c * rng.choice([1, 2])
+    M = 8 * c * c * k                          # bytes of R1 (float64, shape (c*k, c))
+    U = 8 * M + rng.choice([-8, -8, 0, 8])     # usable memory around 8 * R1
+    inp = dict(shape=[rc * k, c], chunks=[rc, c], dtype="float64", seed=rng.randint(0, 9), pattern="lin", src="asarray")
+    prog = dict(inputs=[inp], steps=[dict(op="qr", args=[0]), dict(op="matmul", args=[1, 2])], outs=[3], family="tight-qr")
+    events, labels = [], []
+    with traced.Session() as s:
+        for vi, R in enumerate([0, U // 4, U, 4 * U]):
+            spec = cubed.Spec(work_dir=s.work, allowed_mem=U + R, reserved_mem=R)
+            ev, res, ob = apitrace.run_program_steps(prog, s, variant=vi, spec=spec)
+            events += ev
+            labels.append(f"allowed={U + R},reserved={R}")
+    return prog, events, labels
+
+
 def run(chk):
     warnings.simplefilter("ignore")
     rng = random.Random(chk.seed + 1901)
@@ -120,6 +142,11 @@ def run(chk):
                           summaries=[(e["variant"], e["accepted"], e["exc"], e["value"]) for e in events if e["call"] == "summary"]))
     for _ in range(6 if chk.tier == "quick" else 80):
         prog, events, labels = tight_rechunk_scenario(rng)
+        docs.append(dict(events=events))
+        metas.append(dict(program=prog, variants=labels,
+                          summaries=[(e["variant"], e["accepted"], e["exc"], e["value"]) for e in events if e["call"] == "summary"]))
+    for _ in range(4 if chk.tier == "quick" else 60):
+        prog, events, labels = tight_qr_scenario(rng)
         docs.append(dict(events=events))
         metas.append(dict(program=prog, variants=labels,
                           summaries=[(e["variant"], e["accepted"], e["exc"], e["value"]) for e in events if e["call"] == "summary"]))
